@@ -12,10 +12,12 @@ R vs G is the verdict on the property; R vs M the correspondence; M(repaired) vs
 Lean specification (Props/C16 proves model(repaired) = Spec)."""
 import json
 import os
+import random
 import re
 import shutil
 import stat
 import subprocess
+import threading
 
 import vlib.common as vc
 from vlib.common import *
@@ -209,6 +211,7 @@ def glob_of(rng, comp):
 
 def gen_patterns(rng, ch):
     paths = all_paths(ch)
+    plain = all_paths(ch, through_links=False)
     pats = []
     for _ in range(rng.choice([1, 1, 1, 2, 2, 3])):
         r = rng.random()
@@ -217,7 +220,9 @@ def gen_patterns(rng, ch):
         elif r < 0.14:
             p = rng.choice([b"nope", b"no/such", b"*.none", b"zz*"])
         else:
-            path, node = rng.choice(paths)
+            # mostly aim at something embeddable (regular file / real directory, harmless names), sometimes at anything
+            okp = [(pp, nn) for pp, nn in plain if nn.kind in "fd" and all(c in GOOD or c in HIDDEN or c in UNI or c in SPACES[:2] for c in pp)]
+            path, node = rng.choice(okp) if okp and rng.random() < 0.6 else rng.choice(paths)
             comps = []
             for c in path:
                 lit_ok = all(x not in c for x in b"*?[\\")
@@ -441,8 +446,192 @@ def check_fs_table(files, out):
     return None
 
 
+
+# ----------------------------------------------------------------------------- cl/embed.go: reading the LLVM module back
+def build_clembed(ctx):
+    """second binary of harness/c16: cl.NewPackageEx in-process (-tags llvm14,verif + opaque-pointer overlay on package ssa)"""
+    dst = os.path.join(ctx.scratch, "h-c16")
+    ov = {"Replace": {os.path.join(REPO, "ssa", "zz_verif_opaque.go"): os.path.join(dst, "overlay", "zz_verif_opaque.go.txt")}}
+    ovp = os.path.join(dst, "ov-cl.json")
+    json.dump(ov, open(ovp, "w"))
+    out = os.path.join(dst, "clembed.bin")
+    p = sh(["go", "build", "-tags", "llvm14,verif", "-overlay", ovp, "-o", out, "./clembed"], cwd=dst, env=go_env(), timeout=1800)
+    if p.returncode != 0:
+        raise HarnessBuildError("go build of harness c16/clembed failed:\n" + (p.stdout + p.stderr)[-4000:])
+    return out, dst
+
+
+def ll_unescape(s):
+    out = bytearray()
+    i = 0
+    b = s.encode("latin-1")
+    while i < len(b):
+        if b[i] == 0x5c:
+            out.append(int(b[i + 1:i + 3], 16))
+            i += 3
+        else:
+            out.append(b[i])
+            i += 1
+    return bytes(out)
+
+
+def parse_module(text):
+    """-> {"S": bytes|None, "B": bytes|None, "F": [(name, data)] | None, "n": MakeSlice length | None} from the module of package p.
+    Reads exactly what cl/embed.go writes: constant initialisers of @p.S / @p.B and the stores into the embed.file table in @p.init."""
+    consts = {}
+    for m in re.finditer(r'^@(\d+) = private (?:unnamed_addr )?(?:constant|global) \[(\d+) x i8\] (?:c"((?:[^"\\]|\\[0-9A-Fa-f]{2})*)"|zeroinitializer)', text, flags=re.M):
+        consts[m.group(1)] = ll_unescape(m.group(3)) if m.group(3) is not None else b"\0" * int(m.group(2))
+
+    def strval(v):
+        v = v.strip()
+        if v == "zeroinitializer":
+            return b""
+        m = re.match(r"\{ ptr (?:@(\d+)|null), i64 (\d+)(?:, i64 (\d+))? \}", v)
+        if not m:
+            raise ValueError("unrecognised aggregate: " + v)
+        if m.group(1) is None:
+            return b""
+        data = consts[m.group(1)]
+        n = int(m.group(2))
+        if n > len(data) or (m.group(3) is not None and int(m.group(3)) != n):
+            raise ValueError("length out of range: " + v)
+        return data[:n]
+
+    res = {"S": None, "B": None, "F": None, "n": None}
+    m = re.search(r'^@p\.S = global %"[^"]*\.String" (.*?), align', text, flags=re.M)
+    if m:
+        res["S"] = strval(m.group(1))
+    m = re.search(r'^@p\.B = global %"[^"]*\.Slice" (.*?), align', text, flags=re.M)
+    if m:
+        res["B"] = strval(m.group(1))
+    if re.search(r"^@p\.F = ", text, flags=re.M):
+        init = re.search(r"define void @p\.init\(\).*?^}", text, flags=re.M | re.S)
+        table = {}
+        if init:
+            body = init.group(0)
+            mk = re.search(r'MakeSlice"\(i64 (\d+), i64 (\d+), i64 \d+\)', body)
+            if mk:
+                res["n"] = int(mk.group(1))
+            elem, field = {}, {}
+            for line in body.split("\n"):
+                g = re.match(r"\s*(%\d+) = getelementptr inbounds %embed\.file, ptr (%\d+), i64 (\d+)$", line)
+                if g:
+                    elem[g.group(1)] = int(g.group(3))
+                    continue
+                g = re.match(r"\s*(%\d+) = getelementptr inbounds %embed\.file, ptr (%\d+), i32 0, i32 (\d+)$", line)
+                if g and g.group(2) in elem:
+                    field[g.group(1)] = (elem[g.group(2)], int(g.group(3)))
+                    continue
+                g = re.match(r'\s*store %"[^"]*\.String" (.*), ptr (%\d+), align', line)
+                if g and g.group(2) in field:
+                    table.setdefault(field[g.group(2)][0], {})[field[g.group(2)][1]] = strval(g.group(1))
+        idx = sorted(table)
+        if idx != list(range(len(idx))):
+            raise ValueError("embed.FS table indices are not 0..n-1: %r" % idx)
+        res["F"] = [(table[i].get(0), table[i].get(1)) for i in idx]
+    return res
+
+
+DUMP_GO = b"""package p
+
+import (
+	"encoding/hex"
+	"fmt"
+	"io/fs"
+)
+
+// Dump prints what a program compiled by the reference toolchain sees in the embed variables.
+func Dump() {
+	fmt.Println("S", "x"+hex.EncodeToString([]byte(S)))
+	fmt.Println("B", "x"+hex.EncodeToString(B))
+	fs.WalkDir(F, ".", func(path string, d fs.DirEntry, err error) error {
+		if err != nil {
+			fmt.Println("ERR", err)
+			return nil
+		}
+		if path == "." {
+			return nil
+		}
+		if d.IsDir() {
+			fmt.Println("F", "x"+hex.EncodeToString([]byte(path)), "d")
+			return nil
+		}
+		b, err := F.ReadFile(path)
+		if err != nil {
+			fmt.Println("ERR", err)
+			return nil
+		}
+		fmt.Println("F", "x"+hex.EncodeToString([]byte(path)), "f", "x"+hex.EncodeToString(b))
+		return nil
+	})
+}
+"""
+
+
+def glob_escape(b):
+    return b"".join(b"\\" + bytes([c]) if c in b"*?[\\" else bytes([c]) for c in b)
+
+
+
+def tree_from_json(d, outside):
+    ch = {}
+    for k, v in d.items():
+        nm = b"" if k == "-" else bytes.fromhex(k)
+        if "file" in v:
+            ch[nm] = N("f", data=bytes.fromhex(v["file"]))
+        elif "dir" in v:
+            ch[nm] = N("d", children=tree_from_json(v["dir"], outside))
+        elif "symlink" in v:
+            t = bytes.fromhex(v["symlink"])
+            if b"/outside/" in t:           # links that left the module pointed into the run's scratch directory
+                t = os.path.join(outside, t.split(b"/outside/", 1)[1])
+            ch[nm] = N("l", target=t, resolved=None)
+        else:
+            ch[nm] = N("i")
+    return ch
+
+
+def replay(ctx, path):
+    """re-run one stored case on the real code and on the reference toolchain"""
+    rep = json.load(open(path))["replay"]
+    harness = build_go_harness(ctx, "c16")
+    scratch = ctx.scratch.encode()
+    outside = os.path.join(scratch, b"outside")
+    materialise(os.path.join(outside, b"od"), OUT_DIR.children)
+    materialise(os.path.join(outside, b"od2"), OUT_DIR2.children)
+    with open(os.path.join(outside, b"ofile"), "wb") as f:
+        f.write(OUT_FILE.data)
+    mod = os.path.join(scratch, b"w[x]y", b"mod") if "package_dir" in rep else os.path.join(scratch, b"mod")
+    pdir = os.path.join(mod, b"p0000")
+    os.makedirs(pdir)
+    with open(os.path.join(mod, b"go.mod"), "wb") as f:
+        f.write(b"module tmod\n\ngo 1.24\n")
+    if rep.get("package_dir_tree"):
+        materialise(pdir, tree_from_json(rep["package_dir_tree"], outside))
+        src = rep["go_source"].encode("utf-8", "surrogateescape")
+        line = "resolve %s %s" % (hexs(pdir), " ".join(hexs(bytes.fromhex(h)) for h in rep["patterns_hex"]))
+    else:
+        materialise(pdir, D_TREE)
+        src = ("package p\n\nimport \"embed\"\n\nvar _ embed.FS\n\n" + rep["go_source_after_imports"]).encode()
+        line = "load %s" % hexs(os.path.join(pdir, b"p.go"))
+    with open(os.path.join(pdir, b"p.go"), "wb") as f:
+        f.write(src)
+    real, _, _ = run_lines([harness], [line])
+    g = go_list(mod.decode("utf-8", "surrogateescape"))["p0000"]
+    gres = g_result(g)
+    bad = set()
+    if not g.get("Error"):
+        bad, _ = go_build_status(mod.decode("utf-8", "surrogateescape"), ["p0000"])
+    print("real code   :", real[0])
+    print("go list     :", gres)
+    print("go build    :", "rejects" if bad else "accepts" if not g.get("Error") else "(not run: package does not load)")
+    return 0
+
+
 # ----------------------------------------------------------------------------- the check
 def run(ctx, args):
+    if getattr(args, "replay", None):
+        return replay(ctx, args.replay)
     rng = ctx.rng
     quick = ctx.tier == "quick"
     n_trees = 260 if quick else 4000
@@ -454,6 +643,16 @@ def run(ctx, args):
                     leanchecker=(ctx.tier == "thorough"))
     modeld = build_driver(ctx, "modeld_c16")
     harness = build_go_harness(ctx, "c16")
+    # the in-process cl harness (llvm14) takes a while to link: build it while the trees are generated and listed
+    clres = {}
+
+    def _bg_build():
+        try:
+            clres["ok"] = build_clembed(ctx)
+        except Exception as e:      # re-raised in the main thread
+            clres["err"] = e
+    clthread = threading.Thread(target=_bg_build)
+    clthread.start()
 
     scratch = ctx.scratch.encode()
     outside = os.path.join(scratch, b"outside")
@@ -494,6 +693,11 @@ def run(ctx, args):
     for i, pl in enumerate([[b"d"], [b"all:d"], [b"d/.h"], [b"d/*"], [b"all:d/*"], [b"d/m"], [b"d/m/q"], [b"d/.git"], [b"d/.git/c"],
                             [b"only"], [b"all:only"], [b"d/e"], [b"f"], [b"d", b"d"], [b"d/k", b"all:d"], [b"*"], [b"d/_u", b"nope"]]):
         add_tree_case("p%04d" % (3 + i), hid, pl, "boundary")
+    fold = {b"README": N("f", data=b"1"), b"readme": N("f", data=b"2"), b"sub": N("d", children={b"P.GO": N("f", data=b"3")}),
+            b"P.Go": N("f", data=b"4")}
+    add_tree_case("p%04d" % len(cases), fold, [b"README", b"readme"], "case-insensitive collision between embedded files")
+    add_tree_case("p%04d" % len(cases), fold, [b"P.Go"], "case-insensitive collision with a Go file")
+    add_tree_case("p%04d" % len(cases), fold, [b"sub", b"README"], "no collision: sub/P.GO differs from p.go by its directory")
     base = len(cases)
     for i in range(n_trees):
         ch = gen_dir(rng, 1, top=True, outside=outside)
@@ -608,6 +812,16 @@ def run(ctx, args):
     mism, specmism, specval_mism = [], 0, []
     nontrivial = set()
 
+    unknown = [0]
+
+    def report(key, what, obj):
+        """ctx.report with a cap: a broken rule shows up on many generated inputs, a handful of replays is enough"""
+        if ctx.match_known(key) is None and key not in ctx.reported_keys:
+            unknown[0] += 1
+            if unknown[0] > 6:
+                return
+        ctx.report(key, what, obj)
+
     def case_replay(c, extra):
         d = {"package_dir_tree": tree_json(c["tree"]) if "tree" in c else None, "patterns_hex": [p.hex() for p in c.get("pats", [])],
              "patterns": [p.decode("utf-8", "replace") for p in c.get("pats", [])], "go_source": c.get("src", b"").decode("utf-8", "replace") if "src" in c else c.get("body")}
@@ -669,7 +883,7 @@ def run(ctx, args):
                 key = "checkpath:path-through-symlinked-directory"
             if key is None:
                 key = "resolve:" + lr[i].split(" ", 2)[2] + ":" + enc_tree(c["tree"])[:60]
-            ctx.report(key, "ResolvePatterns disagrees with the Go toolchain: " + why,
+            report(key, "ResolvePatterns disagrees with the Go toolchain: " + why,
                        case_replay(c, {"real": r_tree[i], "go_list": gres, "note": c["note"]}))
         # (b) correspondence real vs model
         if m_tree[i] == "unsupported":
@@ -695,7 +909,7 @@ def run(ctx, args):
         agree = (rf is None) == (gres[0] == "err") and (rf is None or [n.decode() for n, _ in rf] == gres[1])
         if not agree:
             specmism += 1
-            ctx.report("pkgdir:glob-metacharacter-in-package-path",
+            report("pkgdir:glob-metacharacter-in-package-path",
                        "ResolvePatterns globs the unquoted package directory: with a '[' in the path nothing matches (go list: %r)" % (gres,),
                        case_replay(c, {"package_dir": c["dir"].decode(), "real": r_m[i], "go_list": gres}))
 
@@ -725,7 +939,7 @@ def run(ctx, args):
             specmism += 1
             cls = c["class"]
             key = cls if cls else "directive:" + c["body"]
-            ctx.report(key, "LoadDirectives disagrees with the Go toolchain on %r: real %s, go %s" %
+            report(key, "LoadDirectives disagrees with the Go toolchain on %r: real %s, go %s" %
                        (c["body"], "rejects" if real_rejects else sorted(rfiles), "rejects" if go_rejects else gres[1]),
                        {"go_source_after_imports": c["body"], "real": r, "go_list": gres, "go_build_rejects": c["name"] in bad_build})
 
@@ -746,11 +960,116 @@ def run(ctx, args):
             bad = check_fs_table(files, out)
             if bad:
                 specmism += 1
-                ctx.report("fsentries:" + line, "BuildFSEntries output does not satisfy embed.FS's requirements: " + bad,
+                report("fsentries:" + line, "BuildFSEntries output does not satisfy embed.FS's requirements: " + bad,
                            {"files": line, "real": r_fn[i]})
     il_bad = [(il[i], r_il[i], m_il[i]) for i in range(len(il)) if r_il[i] != m_il[i]]
     if il_bad:
         mism.append(("isletter", "", il_bad[0][0], il_bad[0][1], il_bad[0][2]))
+
+
+    # ---------------------------------------------------------------- cl/embed.go: data stored into string / []byte / embed.FS globals
+    # Accepted tree cases are compiled (a) by the reference toolchain into one program that prints the variables and walks
+    # the FS, (b) in-process by cl.NewPackageEx (which runs LoadDirectives itself); the initialisers are read from the module.
+    n_cl = 24 if quick else 150
+    sel = [c for c in cases if g_result(G[c["name"]])[0] == "ok" and g_result(G[c["name"]])[1]][:n_cl]
+    cl_stats = {"cl:packages": len(sel), "cl:fs-entries": 0, "cl:bytes": 0}
+    if sel:
+        clthread.join()
+        if "err" in clres:
+            raise clres["err"]
+        clbin, hdir = clres["ok"]
+        emod = os.path.join(scratch, b"emod")
+        os.makedirs(emod)
+        with open(os.path.join(emod, b"go.mod"), "wb") as f:
+            f.write(b"module emod\n\ngo 1.24\n")
+        main = b"package main\n\nimport (\n\t\"fmt\"\n"
+        calls = b""
+        for k, c in enumerate(sel):
+            name = ("e%04d" % k).encode()
+            pdir = os.path.join(emod, name)
+            materialise(pdir, c["tree"])
+            first = g_result(G[c["name"]])[1][0].encode("utf-8", "surrogateescape")
+            lit = render_pattern(random.Random(0), glob_escape(first))
+            line = b"//go:embed " + b" ".join(render_pattern(rng, p) for p in c["pats"])
+            src = b"package p\n\nimport \"embed\"\n\n//go:embed " + lit + b"\nvar S string\n\n//go:embed " + lit + b"\nvar B []byte\n\n" + line + b"\nvar F embed.FS\n"
+            with open(os.path.join(pdir, b"p.go"), "wb") as f:
+                f.write(src)
+            with open(os.path.join(pdir, b"dump.go"), "wb") as f:
+                f.write(DUMP_GO)
+            c["edir"], c["esrc"], c["efirst"] = pdir, src, first
+            main += b"\t" + name + b" \"emod/" + name + b"\"\n"
+            calls += b"\tfmt.Println(\"== " + name + b"\")\n\t" + name + b".Dump()\n"
+        with open(os.path.join(emod, b"main.go"), "wb") as f:
+            f.write(main + b")\n\nfunc main() {\n" + calls + b"}\n")
+        pr = sh(["go", "run", "."], cwd=emod.decode(), env=go_env(), timeout=1800)
+        if pr.returncode != 0:
+            raise RuntimeError("reference program (go run) failed:\n" + pr.stderr[-3000:])
+        ref = {}
+        cur = None
+        for line in pr.stdout.split("\n"):
+            w = line.split(" ")
+            if w[0] == "==":
+                cur = ref.setdefault(w[1], {"S": None, "B": None, "F": {}})
+            elif w[0] in ("S", "B"):
+                cur[w[0]] = bytes.fromhex(w[1][1:])
+            elif w[0] == "F":
+                cur["F"][bytes.fromhex(w[1][1:])] = None if w[2] == "d" else bytes.fromhex(w[3][1:])
+            elif w[0] == "ERR":
+                raise RuntimeError("reference program reported: " + line)
+        pc = sh([clbin] + [c["edir"].decode("utf-8", "surrogateescape") for c in sel], cwd=hdir, env=go_env(), timeout=1800)
+        blocks = re.split(r"^== (.*)$", pc.stdout, flags=re.M)
+        mods = {}
+        for j in range(1, len(blocks), 2):
+            mods[os.path.basename(blocks[j].strip())] = blocks[j + 1].lstrip("\n")
+        for k, c in enumerate(sel):
+            name = "e%04d" % k
+            txt = mods.get(name)
+            rep = {"package_dir_tree": tree_json(c["tree"]), "go_source": c["esrc"].decode("utf-8", "replace")}
+            if txt is None or not txt.startswith("ok"):
+                specmism += 1
+                report("cl-embed:compile:" + c["esrc"].decode("utf-8", "replace")[-80:],
+                           "cl.NewPackageEx fails on a package the Go toolchain compiles and runs: " + (txt or pc.stderr)[:300], rep)
+                continue
+            try:
+                got = parse_module(txt)
+            except (ValueError, KeyError) as e:
+                ctx.broken.append("cl/embed.go emits initialisers the check cannot read: %s" % e)
+                ctx.report_broken("cl-embed module reader", {"error": str(e), "module": txt[:3000]})
+                break
+            want = ref[name]
+            bad = None
+            if got["S"] != want["S"]:
+                bad = "string variable: llgo module %r, Go program %r" % (got["S"], want["S"])
+            elif got["B"] != want["B"]:
+                bad = "[]byte variable: llgo module %r, Go program %r" % (got["B"], want["B"])
+            elif got["F"] is None:
+                bad = "embed.FS variable has no file table"
+            else:
+                tab = got["F"]
+                seen_fs = {}
+                for nm, dat in tab:
+                    if nm is None or dat is None:
+                        bad = "embed.FS table entry without name or data store"
+                        break
+                    seen_fs[nm[:-1] if nm.endswith(b"/") else nm] = None if nm.endswith(b"/") else dat
+                if bad is None and got["n"] != len(tab):
+                    bad = "embed.FS table length %r but %d entries stored" % (got["n"], len(tab))
+                if bad is None and seen_fs != want["F"]:
+                    bad = "embed.FS contents differ: llgo module %r, Go program %r" % (sorted(seen_fs.items()), sorted(want["F"].items()))
+                if bad is None:
+                    files = [(n, d) for n, d in want["F"].items() if d is not None]
+                    bad = check_fs_table(files, [(n, d) for n, d in tab])
+                    if bad:
+                        bad = "embed.FS table " + bad + " (embed.FS looks names up by binary search in this order)"
+                cl_stats["cl:fs-entries"] += len(tab)
+                cl_stats["cl:bytes"] += sum(len(d or b"") for _, d in tab)
+            nontrivial.add("cl:" + c["esrc"].decode("utf-8", "replace") + enc_tree(c["tree"]))
+            if bad:
+                specmism += 1
+                report("cl-embed:" + c["esrc"].decode("utf-8", "replace")[-80:] + ":" + enc_tree(c["tree"])[:40],
+                           "cl/embed.go stores something else than the Go toolchain embeds: " + bad, rep)
+    clthread.join()
+    stats.update(cl_stats)
 
     # ---------------------------------------------------------------- verdicts on model / spec / theorems
     if mism:
@@ -787,7 +1106,9 @@ def run(ctx, args):
         "(real Go code built from the working tree vs compiled Lean model); path.Match/module.CheckFilePath/strconv.Unquote/unicode.IsLetter are "
         "transcribed in the model and compared with the Go library on every run" % (nT, len(fl) + len(il)),
         "Python generator, tree materialisation (files, directories, symlinks, fifos) and pattern rendering in checks/c16.py",
-        "cl/embed.go (storing the resolved bytes into string / []byte / embed.FS globals) is NOT covered: see design/C16.md",
+        "cl/embed.go: %d accepted packages compiled in-process by cl.NewPackageEx (llvm14 + opaque-pointer overlay); the initialisers of the string / []byte "
+        "globals and the embed.file table stores are read from the LLVM module text (regex reader in checks/c16.py) and compared with what a program built "
+        "by the reference toolchain prints (go run); running llgo-compiled programs that import embed is not possible here (DESIGN §9)" % cl_stats["cl:packages"],
     ]
     ctx.assumptions += [
         "the package directory's own path contains no glob metacharacter (the model globs inside the package directory only); "
